@@ -22,7 +22,7 @@ GOENV = dict(os.environ, GOFLAGS="-mod=mod", GOPROXY="off", GOSUMDB="off", GOTOO
              GOCACHE=os.environ.get("GOCACHE", os.path.join(ROOT, "work", "gocache")))
 COQ_Q = ["-Q", "theories", "Ship", "-Q", "gen", "ShipGen", "-Q", "props", "ShipProps",
          "-w", "-notation-overridden,-deprecated-hint-without-locality,-deprecated-instance-without-locality"]
-SHARD = 400
+SHARD = 120
 
 FIXED_TRUSTED_BASE = [
     "Coq 8.16.1 kernel + vm_compute bytecode VM (no native_compute)",
@@ -194,6 +194,7 @@ def eval_cases(pid, spec, cases, wd, tag="cases"):
                 errors.append("shard %d: %s" % (k, out[-2000:]))
                 continue
             flat = re.sub(r"\s+", "", out)
+            flat = re.sub(r"%(N|nat|Z|positive)", "", flat)   # scope annotations when a scope is closed
             m = re.search(r"R=(.*?):list", flat)
             body = m.group(1) if m else ""
             for idx, codes in re.findall(r"\((\d+),\[([\d;]*)\]\)", body):
@@ -250,7 +251,9 @@ def main_check(pid, tier, seed, replay=None):
     notes, problems = [], []   # problems: broken obligations / correspondence
 
     # 1. tables from source
+    t_ph = time.time()
     rc, out = regen_tables()
+    notes.append("extract (incl. waiting for the build lock) %.1fs" % (time.time() - t_ph))
     if rc != 0:
         problems.append(("translator", "harness/cmd/extract failed on the current source:\n" + out[-3000:]))
     # 2. proofs
@@ -295,7 +298,9 @@ def main_check(pid, tier, seed, replay=None):
         if rc != 0:
             driver_failures.append((drv, rc, out, cmd))
     # 4. model + monitors inside Coq on the implementation's observations
+    t_eval = time.time()
     bad, errors = eval_cases(pid, spec, cases, wd) if cases else ({}, [])
+    notes.append("coq evaluation of %d cases %.1fs" % (len(cases), time.time() - t_eval))
     for e in errors:
         problems.append(("evaluation", "coqc failed on a case shard: " + e))
     codes_map = spec.get("codes", {})
@@ -322,7 +327,7 @@ def main_check(pid, tier, seed, replay=None):
     # 4c. thorough tier: independent re-check of the compiled proofs with coqchk
     if tier == "thorough" and pr["ok"] and not os.environ.get("VERIF_NO_COQCHK"):
         mod = "ShipProps." + os.path.basename(spec.get("props", "props/%s.v" % pid))[:-2]
-        rc, out, dt = sh(["coqchk", "-silent", "-o"] + COQ_Q[:6] + [mod], cwd=COQ, timeout=3000)
+        rc, out, dt = sh(["coqchk", "-silent", "-o"] + COQ_Q[:9] + [mod], cwd=COQ, timeout=3000)
         open(os.path.join(wd, "coqchk.log"), "w").write(out)
         notes.append("coqchk %s rc=%d %.0fs" % (mod, rc, dt))
         extra_cov["coqchk"] = dict(rc=rc, seconds=round(dt), tail=out[-1500:])
